@@ -273,6 +273,23 @@ func (w *csWorld) apply(op string, a *csArgs) error {
 		if err := e.start(); err != nil {
 			return err
 		}
+	case "Reconnect":
+		e.chain.Attach() // ClientConnected again
+	case "ReconnectDuringReorg":
+		e.chain.DuringRescan = func() {
+			removed := e.chain.Disconnect(a.D)
+			w.lastDisc = removed[len(removed)-1]
+			w.lastRem = removed
+			w.ids = w.ids[:len(w.ids)-a.D]
+			for i := 0; i < a.N; i++ {
+				if i == 0 {
+					w.extend(a.Txs)
+				} else {
+					w.extend(nil)
+				}
+			}
+		}
+		e.chain.Attach()
 	case "Stop":
 		e.stop()
 	case "Start":
